@@ -13,6 +13,7 @@ import Nlmodel.Proofs.Lemmas.ResolveHeap
 import Nlmodel.Proofs.Lemmas.ResolveFn
 import Nlmodel.Proofs.Lemmas.Resolve6Top
 import Nlmodel.Proofs.Lemmas.Resolve7Top
+import Nlmodel.Proofs.Lemmas.Sim8Check
 open Nl
 
 /-- character classes: loaded from the table dumped by the harness from Rust's std
@@ -181,7 +182,8 @@ def handle (cc : CharClass) (line : String) : String :=
           else if Sim7.src7Top ast then "proved-nested-r1"
           else if SimF.inFragment r then "proved" else if SimH.inFragmentH r then "proved-heap"
           else if Sim6.inFragment6 r then "proved-heapcalls"
-          else if Sim7.inFragment7 r then "proved-nested" else "outside"
+          else if Sim7.inFragment7 r then "proved-nested"
+          else if Sim8.inFragment8 r then "proved-named" else "outside"
     | none => "bad-hex"
   | _ => "bad-request"
 
